@@ -332,6 +332,11 @@ func (q qiDecoder) value(v reflect.Value) error {
 		return fmt.Errorf("cannot decode interface: %v of %v (%v of %v)",
 			v, v.Type(), i, reflect.ValueOf(i))
 	case reflect.Ptr:
+		if v.IsNil() && v.CanSet() {
+			// a nil pointer member: decode into a new element
+			// (the encoder writes what a pointer points to).
+			v.Set(reflect.New(v.Type().Elem()))
+		}
 		v = v.Elem()
 		if v.Kind() == reflect.Slice {
 			return q.sliceValue(v)
